@@ -8,13 +8,6 @@
 using namespace nd;
 using namespace hs;
 
-extern "C" void __asan_set_error_report_callback(void (*)(const char*)) __attribute__((weak));
-static void on_asan(const char* report) {
-  g_blob = std::string(report).substr(0, 6000) + "\n" + g_blob;
-  write_fail_file("asan", "AddressSanitizer report during a step with a too-small arena (report in the replay file)");
-  _exit(10);
-}
-
 struct Ref { int ncon, nefc, nisland; size_t need; std::vector<int> cg1, cg2; };
 enum Family { F_CLUSTER, F_PAIRS, F_GENERAL, F_CORPUS, F_MULTIGEOM, F_N };
 static const char* kFam[] = {"dense-cluster", "explicit-pairs", "generated", "corpus", "multi-geom"};
@@ -26,7 +19,6 @@ static bool in_arena(const mjData* d, const void* p, size_t n) {
 
 int main(int argc, char** argv) {
   setup(argc, argv, "C20");
-  if (__asan_set_error_report_callback) __asan_set_error_report_callback(on_asan);
   Supply sup; sup.init();
   long max_exec = opt_long("maxexec", 1500);
   for (uint64_t s = g_args.seed0; s < g_args.seed0 + g_args.n; s++) {
